@@ -76,44 +76,23 @@ def enclosing_loops(fn, stmt):
 
 
 def rule_tags(ctx, rule):
-    ctx.rule(rule, "tag alphabets agree: the tags emitted by lru_stems_from_parsed_url, the character class in the look-ahead of SERIALIZED_LRU_SPLITTER_RE and the tags consumed by lru_to_url are all {s,t,h,p,q,f,u,w}")
-    import re._parser as sp
-    import re._constants as sc
-    st, fn = emitter(ctx)
-    emitted = set(t for t, _, _ in tagged_appends(fn))
-    ctx.ob(rule, "emitted-tags", emitted == set(TAGS), "lru_stems_from_parsed_url emits the tags %s, expected %s" % (sorted(emitted), TAGS), st.site(fn), sample="emitted %s" % sorted(emitted))
+    ctx.rule(rule, "tag alphabet of the serialisation: SERIALIZED_LRU_SPLITTER_RE, applied (constant folding with the standard re) to 'x<sep>T:y' for every printable ASCII character T, splits exactly when T is one of the stem tags {s,t,h,p,q,f,u,w}, and never consumes anything but the separator (what the emitter writes and the reader consumes is decided by the model tables)")
+    import re as _re
     ser = ctx.repo.mod("lru.serialization")
     rx = ctx.repo.const(ser, "SERIALIZED_LRU_SPLITTER_RE")
     ctx.rx("ural.lru.serialization.SERIALIZED_LRU_SPLITTER_RE")
-    tree = sp.parse(rx.pattern, rx.flags)
-    klass = None
-    sep = None
-    items = list(tree)
-    if len(items) == 2 and items[0][0] is sc.LITERAL and items[1][0] is sc.ASSERT and items[1][1][0] > 0:
-        sep = chr(items[0][1])
-        la = list(items[1][1][1])
-        if len(la) == 2 and la[0][0] is sc.IN and la[1][0] is sc.LITERAL and chr(la[1][1]) == ":":
-            klass = set()
-            for op, av in la[0][1]:
-                if op is sc.LITERAL:
-                    klass.add(chr(av))
-                elif op is sc.RANGE:
-                    klass |= set(chr(c) for c in range(av[0], av[1] + 1))
     site = ser.site(ctx.repo.const_node(ser, "SERIALIZED_LRU_SPLITTER_RE"))
-    if klass is None:
-        ctx.undecided(rule, "SERIALIZED_LRU_SPLITTER_RE is not `<sep>(?=[tags]:)`")
-    else:
-        ctx.ob(rule, "splitter-tags", klass == set(TAGS), "the splitter's look-ahead accepts the tags %s while the emitter writes %s: a serialized LRU is split at the wrong places" % (sorted(klass), sorted(emitted)), site)
-    conv = ctx.repo.mod("lru.conversion")
-    cfn = conv.func("lru_to_url").node
-    ctx.fn("ural.lru.conversion.lru_to_url")
-    consumed = set()
-    for node in ast.walk(cfn):
-        if isinstance(node, ast.Call) and isinstance(node.func, ast.Attribute) and node.func.attr == "get" and node.args and isinstance(node.args[0], ast.Constant) and isinstance(node.args[0].value, str) and len(node.args[0].value) == 1:
-            consumed.add(node.args[0].value)
-        if isinstance(node, ast.Subscript) and isinstance(node.slice, ast.Constant) and isinstance(node.slice.value, str) and len(node.slice.value) == 1:
-            consumed.add(node.slice.value)
-    ctx.ob(rule, "consumed-tags", consumed == set(TAGS), "lru_to_url reads the tags %s, expected %s: a component is lost on the way back" % (sorted(consumed), TAGS), conv.site(cfn), sample="consumed %s" % sorted(consumed))
+    crx = _re.compile(rx.pattern, rx.flags)
+    sep = None
+    for cand in "|\t;,/ ":
+        if crx.split("x%sh:y" % cand) == ["x", "h:y"]:
+            sep = cand
+            break
+    ctx.ob(rule, "splitter-separator", sep is not None, "SERIALIZED_LRU_SPLITTER_RE does not split 'x<sep>h:y' into ['x', 'h:y'] for any single-character separator", site)
+    if sep is not None:
+        accepted = set(chr(c) for c in range(33, 127) if crx.split("x%s%s:y" % (sep, chr(c))) == ["x", "%s:y" % chr(c)])
+        ctx.ob(rule, "splitter-tags", accepted == set(TAGS), "the splitter cuts before the tags %s while the stems are tagged %s: a serialized LRU is split at the wrong places" % (sorted(accepted), TAGS), site,
+               sample="splits before %s" % sorted(accepted))
     return sep
 
 
